@@ -10,19 +10,20 @@ on the wire and the exception delivered to the caller's pending call are compare
                                                                     correspondence break
 The registration layer (decorator + define on class hierarchies) is compared op by op with the model (`err.reg`).
 
-Self-test (scratch copy of /repo/src, VERIF_REPO; see FRAMEWORK.md), quick tier, 2026-09-23:
-  M1 protocol.py _message_from_exception: `message.Error(request_type, request, error, args, None)` (drop kwargs)
-        -> exit 1, VIOLATION error-message:kwargs (replay: src E_any_d, kwargs {"code": 42}, json, twisted)
-  M2 _message_from_exception: registered classes also get "wamp.error.runtime_error"
-        -> exit 1, VIOLATION error-message:uri
-  M3 _exception_from_message: `if not exc: return None`-style swallow (fallback removed -> reject(None))
-        -> exit 1, VIOLATION caller:lost / caller:class
-  M4 _exception_from_message: args dropped when kwargs present (`ecls(**msg.kwargs)` in the args+kwargs branch)
-        -> exit 1, VIOLATION caller:args
+Self-test (scratch copy of /repo/src, VERIF_REPO=/tmp/c1820m; quick tier, --no-proof; 2026-09-23). Each mutation is one
+edit of wamp/protocol.py; "keys" are the Violation keys of the replays written (each replay = the concrete case,
+framework, serializer and what was observed; `./check C18 --replay <file>` reproduces it, exit 1 mutated / 0 unchanged):
+  M1 _message_from_exception: `message.Error(request_type, request, error, args, None)` (kwargs dropped)
+        -> exit 1; caller:kwargs:class, caller:class:class, caller:kwargs:app, caller:class:app
+  M2 _message_from_exception: registered classes get "wamp.error.runtime_error" too        -> exit 1; caller:class:class
+  M3 _exception_from_message: fallback only `if not exc and msg.error not in self._uri_to_ecls` (a registered class that
+     cannot be constructed is swallowed: reject(None))                    -> exit 1; caller:lost:class, caller:class:class, caller:lost:app
+  M4 _exception_from_message: `ecls(**msg.kwargs)` in the args+kwargs branch (args dropped)  -> exit 1; caller:args:class, caller:args:app
   M5 define(): explicit registration forgets `_uri_to_ecls[error] = exception`
-        -> exit 1, VIOLATION caller:class + registration stream differs
-  H1 harmless: four-way constructor call rewritten as `ecls(*(msg.args or []), **(msg.kwargs or {}))`
-        -> exit 0, silent
+        -> exit 1; caller:class:class, registration:explicit-define-uri-not-mapped
+  M6 _message_from_exception: forwarded traceback REPLACES the kwargs (`kwargs = {"traceback": tb}`)
+        -> exit 1; caller:kwargs:class, caller:class:class, caller:kwargs:app
+  H1 harmless: the four-way constructor call rewritten as `ecls(*(msg.args or []), **(msg.kwargs or {}))` -> exit 0, silent
 """
 import hashlib
 import json
@@ -217,6 +218,9 @@ def gen_reg_cases(ctx):
                 ops.append(["def", rng.choice(names)])
             else:
                 ops.append([k, rng.choice(names), rng.choice(uris)])
+        # decorators run at class-creation time, before any session.define(): decorations first (a decoration AFTER
+        # define(cls) would also show through the registry, which holds the very list object `cls._wampuris`)
+        ops.sort(key=lambda op: 0 if op[0] == "dec" else 1)
         out.append({"classes": classes, "ops": ops})
     for rc in out:
         rc["uris"] = sorted({op[2] for op in rc["ops"] if len(op) > 2})
